@@ -292,7 +292,19 @@ def run_dm(R, name, K, over=None):
         _, ts2 = env.reset(k2)
         out["o_again"] = ts2.observation
         return out
-    g = S.call(ctx, dm_episode, key, *acts, R=R, name="JumanjiToDMEnvWrapper: reset,step*,reset")
+    # several CONCRETE episodes of the unstubbed adapter, each played until LAST (or 40 steps) and followed by an explicit reset: what a
+    # user does after an episode has ended (state the adapter keeps across reset(), e.g. a pending "reset on next step" flag, only shows
+    # there).  Spec-random actions; sanity layer, also the fallback when the adapter cannot be traced.
+    okc, detc = dm_concrete(env, W)
+    R.validated += 1
+    R.structural("concrete dm_env episodes played to LAST, explicit reset in between == native episodes with the documented key schedule", okc, detc)
+    try:
+        g = S.call(ctx, dm_episode, key, *acts, R=R, name="JumanjiToDMEnvWrapper: reset,step*,reset")
+    except Exception as e:  # noqa  (python control flow on a traced value inside the adapter: not symbolically executable)
+        R.note(f"{name}: dm_env adapter is not traceable ({type(e).__name__}); decided on the concrete episodes only")
+        R.structural("dm_env adapter relays a traced episode (its python control flow does not depend on array values other than through the stubbed conversions)", False,
+                     {"config": name, "error": f"{type(e).__name__}: {str(e)[:200]}", "concrete_episodes_ok": okc})
+        return
     n = S.call(ctx, native_episode, key, *acts, R=R, name="native episode with the documented key schedule")
     A = pre + ctx.assumptions
     R.structural("dm_env reset returns FIRST with reward None and discount None (both resets)", bool(first_ok.get("first")) and bool(first_ok.get("again")),
@@ -322,6 +334,36 @@ def run_dm(R, name, K, over=None):
     for kname in sorted(g.keys()):
         WC.eq_obligations(R, f"dm_env {kname} == native: ", A, S.tree_eq_items(g[kname], n[kname]), replay)
     R.sample({"config": name, "K": K, "outputs": sorted(g.keys())})
+
+
+def dm_concrete(env, W, episodes=3, max_steps=40, seed=5):
+    import dm_env
+    rng = np.random.default_rng(seed)
+    spec = env.action_spec
+    lo = np.broadcast_to(np.asarray(getattr(spec, "minimum", 0)), spec.shape)
+    hi = np.broadcast_to(np.asarray(getattr(spec, "maximum", 0)), spec.shape)
+    key = jax.random.PRNGKey(seed)
+    d = W.JumanjiToDMEnvWrapper(env, key=key)
+    f = jax.jit(env.step)
+    try:
+        for ep in range(episodes):
+            t = d.reset()
+            k1, key = jax.random.split(key)
+            s, ts = env.reset(k1)
+            if t.step_type != dm_env.StepType.FIRST or t.reward is not None or t.discount is not None or WC.diff_fields(t.observation, ts.observation):
+                return False, {"episode": ep, "at": "reset", "step_type": int(t.step_type)}
+            for i in range(max_steps):
+                a = jnp.asarray(rng.integers(lo, hi + 1).astype(spec.dtype))
+                t = d.step(a)
+                s, ts = f(s, a)
+                if t.reward is None or int(t.step_type) != int(ts.step_type) or WC.diff_fields((t.observation, t.reward, t.discount), (ts.observation, ts.reward, ts.discount)):
+                    return False, {"episode": ep, "step": i + 1, "adapter_step_type": int(t.step_type), "native_step_type": int(ts.step_type),
+                                   "adapter_reward": None if t.reward is None else np.asarray(t.reward).tolist(), "native_reward": np.asarray(ts.reward).tolist()}
+                if int(ts.step_type) == 2:
+                    break
+    except Exception as e:  # noqa
+        return False, {"error": f"{type(e).__name__}: {str(e)[:200]}"}
+    return True, {"episodes": episodes}
 
 
 def run_m2s(R, name):
